@@ -222,8 +222,8 @@ func ruleC08Text(e *Env) {
 		if k, ok := rk(a, b); ok {
 			return k, true
 		}
-		if s, ok := a.(pred.Sym); ok && b.String() == `""` {
-			return s.Name + `==""`, true
+		if k, ok := strEmptyKey(a, b); ok {
+			return k, true
 		}
 		return errKeyOf(a, b)
 	}
